@@ -1,6 +1,6 @@
 #!/bin/bash
-# tools/neutral_regress.sh [jobs]: every stored behaviour-preserving patch (neutral/<Cxx>/patch_k.diff) applied to a private worktree of
+# tools/neutral_regress.sh [jobs]: every stored behaviour-preserving patch (${NDIR:-neutral}/<Cxx>/patch_k.diff) applied to a private worktree of
 # /repo HEAD, all 20 quick checks run against it.  Prints one line per patch; any line other than "silent" is a false alarm to fix.
 j=${1:-10}
 cd /verif
-ls neutral/*/patch_*.diff | while read f; do p=$(basename $(dirname $f)); k=$(basename $f .diff | sed 's/patch_//'); echo "$f $p-n$k"; done | xargs -P "$j" -L1 tools/neutral_check.sh
+ls ${NDIR:-neutral}/*/patch_*.diff | while read f; do p=$(basename $(dirname $f)); k=$(basename $f .diff | sed 's/patch_//'); echo "$f $p-n$k"; done | xargs -P "$j" -L1 tools/neutral_check.sh
